@@ -130,6 +130,8 @@ def case_fails_same(ctx, lines, want_kind, want_rule, want_tag):
     """predicate for shrinking: does this op list still fail the same way?"""
     c = Case(lines)
     fs, _ = execute(ctx, [c])
+    if any('PROTO-ERROR' in (f.line or '') for f in fs):
+        return False          # the reduced trace is not a well-formed program any more
     for f in fs:
         if f.kind == want_kind and (want_kind == 'FATAL' or (f.rule() == want_rule and f.tag().split('.')[0] == want_tag.split('.')[0])):
             return True
